@@ -160,10 +160,24 @@ func (m *M) putIdentity(r int, kind int) {
 
 var scalarClasses = []string{"zero", "one", "two", "three", "minus_one", "minus_two", "half_up", "half_down",
 	"pow2", "pow2_255", "top_bit_set", "sparse", "dense", "limb_pattern", "near_n", "small", "random", "random",
-	"word_boundary", "word_structure", "mont_window", "mont_near_const"}
+	"word_boundary", "word_structure", "mont_window", "mont_near_const", "curve_constant"}
+
+// constants of the curve that implementations special-case: the cube roots of unity mod n of the GLV endomorphism
+// (lambda, lambda^2 = -lambda - 1) and their neighbours / negatives, (n-1)/2 .. , the inverse of 2 and of 3
+var glvLambda, _ = new(big.Int).SetString("5363ad4cc05c30e0a5261c028812645a122e22ea20816678df02967c1b23bd72", 16)
 
 func (m *M) scalarOf(class string) *big.Int {
 	switch class {
+	case "curve_constant":
+		l2 := new(big.Int).Sub(bigN, new(big.Int).Add(glvLambda, one))
+		c := []*big.Int{glvLambda, l2, new(big.Int).Sub(bigN, glvLambda), new(big.Int).Sub(bigN, l2),
+			new(big.Int).Add(glvLambda, one), new(big.Int).Sub(glvLambda, one),
+			new(big.Int).ModInverse(two, bigN), new(big.Int).ModInverse(big.NewInt(3), bigN)}
+		k := m.rng.Intn(len(c) + 2)
+		if k >= len(c) {
+			k -= len(c) // lambda and lambda^2 twice as often
+		}
+		return new(big.Int).Set(c[k])
 	case "zero":
 		return big.NewInt(0)
 	case "one":
